@@ -5,7 +5,7 @@ pid = sys.argv[1]
 base = subprocess.run(['python3', '/verif/tools/breaker_prompt.py', pid, '2'], capture_output=True, text=True).stdout
 base = base.replace('/tmp/seed/%s-out' % pid.lower(), '/tmp/seed/%s-r3-out' % pid.lower()).replace('/tmp/seed/%s ' % pid.lower(), '/tmp/seed/%s-r3 ' % pid.lower()).replace('/tmp/seed/%s`' % pid.lower(), '/tmp/seed/%s-r3`' % pid.lower()).replace('/tmp/seed/%s)' % pid.lower(), '/tmp/seed/%s-r3)' % pid.lower()).replace('/tmp/seed/%s.' % pid.lower(), '/tmp/seed/%s-r3.' % pid.lower()).replace('/tmp/seed/%s ' % pid.lower(), '/tmp/seed/%s-r3 ' % pid.lower())
 prev = []
-for d in sorted(glob.glob('/verif/seeded/%s-m*' % pid)):
+for d in sorted(glob.glob('/verif/seeded/%s-*m*' % pid)):
     try:
         m = json.load(open(d + '/meta.json'))
         prev.append('- ' + ' '.join((m.get('summary') or '').split())[:400])
